@@ -131,6 +131,20 @@ Theorem C03_assign_q_step : forall q blanks AND s l qs v e,
   (forall w, v <> w -> lookup w (vars (x mx (fst r))) = lookup w (vars (x mx s))).
 Proof. exact assign_q_step. Qed.
 Print Assumptions C03_assign_q_step.
+(** ... and with a tracking key, '@nm.key.<qualifiers> = e': decided over, and written to, the value held under that key; the variable's other keys stay *)
+Theorem C03_assign_qk_step : forall q blanks AND s l qs nm key e,
+  let cur := aval_of (match dget (x mx s) nm key with Some c0 => c0 | None => VNone end) in
+  let y := aval_of (nvalue blanks s l e) in
+  let r := do_agg q blanks AND s l (AssignQK qs nm key e) in
+  Assign.comparable cur y = true ->
+  snd r = Assign.vote qs true cur y /\
+  (Assign.write qs true cur y = true -> dget (x mx (fst r)) nm key = Some (nvalue blanks s l e)) /\
+  (Assign.write qs true cur y = false -> fst r = s) /\
+  (forall key', key <> key' -> dget (x mx (fst r)) nm key' = dget (x mx s) nm key') /\
+  (forall nm' key', nm <> nm' -> dget (x mx (fst r)) nm' key' = dget (x mx s) nm' key') /\
+  vars (x mx (fst r)) = vars (x mx s).
+Proof. exact assign_qk_step. Qed.
+Print Assumptions C03_assign_qk_step.
 Theorem C03_sum_step : forall q blanks AND s l nm e,
   let r := do_agg q blanks AND s l (Sum nm e) in
   num_of (lookup nm (vars (x mx (fst r)))) = num_of (lookup nm (vars (x mx s))) + fst (neval blanks s l e) /\
